@@ -1,5 +1,5 @@
 """C09 — accept / reject verdicts are invariant under meaning-preserving rewrites."""
-import os, re, collections
+import os, re, collections, subprocess
 import vlib, docgen, crashgen, exprgen
 
 SEPS = [' ', ' ', '  ', '\n', '\t', ' /* c */ ', ' // c\n', '\n\n', ' /* a\n b */ ',
@@ -106,10 +106,83 @@ def observe(c):
     return errs, sup, doc
 
 
+def comment_texts(rng, n):
+    """declarations int a0; int a1; ... with block comments between them whose bodies are drawn from the characters the comment
+    rules care about (stars, slashes, the EXPECT: marker, blanks, line breaks): closed early, closed late, swallowed, never closed"""
+    atoms = ['*', '*', '/', '/', 'E', 'X', 'EXPECT:', 'EXPECT:a', 'a', ' ', '\n', '\t', '**', '*/', '/*', ':', 'x y']
+    out = []
+    for _ in range(n):
+        parts, k = [], 0
+        for _ in range(rng.randrange(2, 6)):
+            parts.append('int a%d;' % k); k += 1
+            r = rng.random()
+            if r < 0.75:
+                body = ''.join(rng.choice(atoms) for _ in range(rng.randrange(0, 7)))
+                parts.append('/*' + body + ('*/' if rng.random() < 0.9 else ''))
+            elif r < 0.85:
+                parts.append(' ')
+        parts.append('int a%d;' % k)
+        out.append((' ' if rng.random() < 0.5 else '').join(parts))
+    return out
+
+
+def comments_at_character_level(run, thorough):
+    """the extracted scanner of CommentLex.v against the real lexer: which declarations survive, and whether the comment is reported unclosed"""
+    rng = run.rng
+    stats = dict(comment_texts=0, comment_unclosed=0, comment_clean=0, comment_garbage=0)
+    drv, err = vlib.build_extract('comment', 'Extract_Comment.v', 'drv_comment') if os.path.exists(os.path.join(vlib.COQ, 'theories', 'CommentLexProofs.vo')) else (None, 'CommentLexProofs.vo missing')
+    if drv is None:
+        run.tie_broken('extraction of the comment scanner', err)
+        return stats
+    texts = comment_texts(rng, 1500 if thorough else 300)
+    out = subprocess.run([drv], input=''.join(t.encode().hex() + '\n' for t in texts), stdout=subprocess.PIPE, universal_newlines=True).stdout.split('\n')
+    j = vlib.Job()
+    for k, t in enumerate(texts):
+        j.case('k%d' % k, fork=True).model('xta', t + '\nprocess P() { state A; init A; }\nsystem P;\n').dump('errors').dump('doc').end()
+    rr = vlib.run_jobs(j)
+    for k, t in enumerate(texts):
+        c = rr['k%d' % k]
+        stats['comment_texts'] += 1
+        if c['status'] != 'ok':
+            run.fail('lexer crashed on a comment (%s)' % c['status'], dict(text=t, status=c['status']), shape='crash')
+            continue
+        lines = [l for cc in c['cmds'] for l in cc[2]]
+        errs = [l for l in lines if l.startswith('error')]
+        declared = [m.group(1) for l in lines for m in [re.match(r'global var \d+ (a\d+) ', l)] if m]
+        # the suffix "process ... system P;" is appended after the text: an unclosed comment swallows it
+        full = t + '\nprocess P() { state A; init A; }\nsystem P;\n'
+        mo = subprocess.run([drv], input=full.encode().hex() + '\n', stdout=subprocess.PIPE, universal_newlines=True).stdout.strip() if out[k] == 'UNCLOSED' else out[k]
+        if mo == 'UNCLOSED':
+            stats['comment_unclosed'] += 1
+            if not any('Comment_not_closed' in l for l in errs):
+                run.fail('a comment without terminator is not reported: %r' % t, dict(text=t, errors=errs[:3]), shape='comment:unclosed-not-reported')
+            continue
+        stripped = bytes.fromhex(mo[3:]).decode()
+        if '//' in stripped or '"' in stripped or '\\' in stripped:
+            continue                                               # line comments, strings and continuations are outside the model
+        if re.fullmatch(r'(\s*int a\d+;)*\s*', stripped):
+            stats['comment_clean'] += 1
+            want = re.findall(r'int (a\d+);', stripped)
+            if errs or declared != want:
+                run.fail('comments in %r: the declarations outside comments are %s, the parser %s' % (t, want, 'reports ' + errs[0][:120] if errs else 'declares %s' % declared),
+                         dict(text=t, expected=want, declared=declared, errors=errs[:3]), shape='comment:wrong-extent')
+        else:
+            stats['comment_garbage'] += 1
+            if not errs:
+                run.fail('comments in %r end early and leave %r outside, but the text is accepted' % (t, stripped), dict(text=t, stripped=stripped, declared=declared), shape='comment:garbage-accepted')
+    return stats
+
+
 def check(run):
     thorough = run.tier == 'thorough'
     rng = run.rng
+    try:
+        import gen_lex
+        gen_lex.comment_rules()
+    except Exception as e:
+        run.tie_broken('reader of the <comment> rules of lexer.l', str(e))
     run.proofs()
+    cstats = comments_at_character_level(run, thorough)
     n = 2500 if thorough else 320
     j = vlib.Job()
     plan = []
@@ -203,11 +276,11 @@ def check(run):
     for sk, a, b, mp in probes:
         stats['soft-keyword-probes'] += 1
         compare(rr['pa' + sk], rr['pb' + sk], 'rename type to %s' % sk, a, b, mp, 'soft-keyword-type:')
-    run.cov.update(evaluations=2 * len(plan) + 2 * len(probes), distinct_nontrivial=len(set(p[3] for p in plan)), traces_validated_against_impl=len(plan), **stats,
+    run.cov.update(evaluations=2 * len(plan) + 2 * len(probes) + cstats['comment_texts'], distinct_nontrivial=len(set(p[3] for p in plan)), traces_validated_against_impl=len(plan) + cstats['comment_texts'], **stats, **cstats,
                    rule='generated models (C04 generator, a third with a semantic fault in a label; declaration seeds with functions, structs, typedefs, quantifiers, channel priorities) rewritten by one family: '
                         '(space) the same tokens separated by blanks / tabs / line breaks / block and line comments instead of single blanks; (parens) redundant parentheses around literals and whole guard / invariant / update expressions; '
                         '(alias) and / or / not for && / || / !; (rename) every user identifier consistently replaced by a fresh one. Compared: the multiset of diagnostic messages (renamed, positions dropped), the supported-analysis verdict, '
                         'and the document dump line by line (renamed). Plus one probe per soft keyword of the query language used as a type name.')
     run.cov['trusted_base'] += ['the rewriters of tools/props/C09.py (token-level; the reference spelling is re-joined from the same token list)', 'tools/docgen.py, tools/crashgen.py', 'SR.v / ExprSyntax.v / Scope.v models (see C02, C07)']
-    return run.finish('proof', assumptions=['white space and comments are not modelled at character level in Coq (the lexer is generated by flex); their invariance is decided by the relational oracle only',
+    return run.finish('proof', assumptions=['block comments are modelled at character level (CommentLex.v: the five <comment> rules, regenerated from lexer.l and compared with the modelled ones); blanks, line comments, continuations and the token rules of the INITIAL condition are not: their invariance is decided by the relational oracle only',
                                             'the type checker\'s equivariance under renaming is proved for name resolution (Scope.v), not for the whole checker'])
